@@ -81,7 +81,7 @@ Proof.
   { intros f els Hm. pose proof (map_find_In _ _ _ Hm) as Hin.
     rewrite Forall_forall in IH. specialize (IH _ Hin). cbn [snd] in IH. rewrite Forall_forall in IH.
     apply Forall_forall. intros e He. destruct (GF _ _ Hin) as [_ Hne].
-    destruct Hne as (_ & _ & _ & x & sg & _ & _ & Hok); [intros ->; destruct He|].
+    destruct Hne as (_ & _ & _ & sg & _ & Hok); [intros ->; destruct He|].
     rewrite Forall_forall in Hok. exact (IH e He _ (Hok e He)). }
   (* per-tag number of fields below *)
   set (g := fun f => match map_find f groups with Some els => nf_els els | None => 0 end).
